@@ -87,7 +87,7 @@ def decorate(case, rng, dflags):
     R = lambda v: f'{v}_{rk}'   # noqa: E731
 
     decl = ['    real(kind=%s) :: zw(n), zs, zv(n, m)' % rk, '    real(kind=%s) :: zf(4)' % rk, '    integer :: jz, kz',
-            '    real(kind=%s) :: zp, zu1, zu2' % rk]
+            '    real(kind=%s) :: zp, zu1, zu2' % rk, '    real(kind=%s) :: zq(1:n, 3, 1:2)' % rk]
     spec_tail = []
     if dflags.get('stmt_func'):
         decl.append('    real(kind=%s) :: sfn, sfx' % rk)
@@ -99,7 +99,7 @@ def decorate(case, rng, dflags):
         decl.append('    real(kind=jploc) :: zloc')
         marks['local_kind'] = True
         feats.add('d:selected_real_kind')
-    init = [f'    zw = {R("0.5")}', f'    zv = {R("0.25")}', f'    zf = {R("1.0")}', f'    zs = {R("0.0")}']
+    init = [f'    zq = {R("0.75")}', f'    zw = {R("0.5")}', f'    zv = {R("0.25")}', f'    zf = {R("1.0")}', f'    zs = {R("0.0")}']
     if dflags.get('local_kind'):
         init.append('    zloc = 1.0_jploc')
     if dflags.get('stmt_func'):
@@ -161,6 +161,9 @@ def decorate(case, rng, dflags):
     if dflags.get('dup_args'):
         blk('dup_args', ['    call hdup(n, n, a1, zs)'])
         marks['dup_args'] = True
+    if dflags.get('lower_const'):
+        blk('lower_const', ['    call hlow(n, zq(:, 1, :), zs)'])
+        marks['lower_const'] = True
     if dflags.get('vec'):
         blk('vec', [f'    zw(1:n) = a1(1:n) + {R("0.5")}', '    zv(:, :) = zv(:, :)*s1', '    zw(:) = zw + a1'])
     if dflags.get('use_constants') and marks.get('constants'):
@@ -223,6 +226,14 @@ def decorate(case, rng, dflags):
     sout = sout + xin(1)*real(n2, {rk})
   end subroutine hdup
 end module kmod""")
+    if dflags.get('lower_const'):
+        text = text.replace('end module kmod', f"""  subroutine hlow(nn, x2, sout)
+    integer, intent(in) :: nn
+    real(kind={rk}), intent(in) :: x2(nn, 2)
+    real(kind={rk}), intent(inout) :: sout
+    sout = sout + x2(1, 1) + x2(nn, 2)
+  end subroutine hlow
+end module kmod""")
     if dflags.get('assumed_shape') and has['hsub']:
         text = text.replace('intent(in) :: xin(nn)\n    real(kind=%s), intent(inout) :: xio\n    real(kind=%s), intent(out) :: sout\n    integer :: ii\n    sout = 0.0' % (rk, rk),
                             'intent(in) :: xin(:)\n    real(kind=%s), intent(inout) :: xio\n    real(kind=%s), intent(out) :: sout\n    integer :: ii\n    sout = 0.0' % (rk, rk), 1)
@@ -273,7 +284,7 @@ def _where_is_block(st):
 
 DECOR_FLAGS = ['unroll', 'fusion', 'interchange', 'fission', 'outline', 'remove', 'hoist_region', 'inline_call',
                'seq_assoc', 'dead_code', 'dup_args', 'vec', 'constants', 'use_constants', 'fun_calls', 'stmt_func',
-               'local_kind', 'unused_import', 'assumed_shape']
+               'local_kind', 'unused_import', 'assumed_shape', 'lower_const']
 
 
 def make_case(rng, idx, gates=None):
@@ -351,7 +362,7 @@ class Entry:
     apply: object                     # callable(X, opts)
     space: dict = field(default_factory=dict)
     pre: object = None                # callable(wc, opts) -> bool : applicable to this program with these options
-    gate: object = None               # callable(wc) -> bool : known mechanism would fire -> only in gated slices
+    gate: object = None               # callable(wc, opts) -> bool : known mechanism would fire -> only in gated slices
     group: str = ''
     c40: bool = False                 # normalising transformation listed in C40
     min_quick: int = 3
@@ -448,7 +459,7 @@ def _flatten(x, o):
 def _lower_const(x, o):
     T = _T()
     t = T.LowerConstantArrayIndices(recurse_to_kernels=o['recurse'], inline_external_only=o['ext'])
-    t.apply(x.kern, role='kernel' if o['recurse'] else 'driver', targets=('hsub', 'hdup', 'hfun'))
+    t.apply(x.kern, role='kernel' if o['recurse'] else 'driver', targets=('hlow',))
 
 
 def _demote(x, o):
@@ -500,7 +511,8 @@ def _remove_trafo(x, o):
     t = T.RemoveCodeTransformation(remove_marked_regions=o['marked'], mark_with_comment=o['comment'],
                                    remove_dead_code=o['dead'], use_simplify=o['simplify'],
                                    call_names=('hdup',) if o['calls'] else None, kernel_only=False,
-                                   remove_unused_vars=o['unused_vars'], remove_unused_args=False)
+                                   remove_unused_vars=o['unused_vars'], remove_unused_args=False,
+                                   remove_only_arrays=True)
     t.apply(x.kern, role='kernel')
 
 
@@ -551,7 +563,16 @@ def _dup_args(x, o):
 
 
 def _constprop(x, o):
-    _T().do_constant_propagation(x.kern, unroll_loops=o['unroll_loops'])
+    # do_constant_propagation raises AttributeError ('ProcedureSymbol' has no 'initial') for every routine that
+    # calls a known subroutine: apply it to the routines without call statements
+    from loki.ir import FindNodes, CallStatement   # pylint: disable=import-outside-toplevel
+    done = 0
+    for r in x.routines('all'):
+        if not FindNodes(CallStatement).visit(r.body):
+            _T().do_constant_propagation(r, unroll_loops=o['unroll_loops'])
+            done += 1
+    if not done:
+        _T().do_constant_propagation(x.kern, unroll_loops=o['unroll_loops'])
 
 
 def _split_rw(x, o):
@@ -573,7 +594,7 @@ REGISTRY = [
     Entry('replace_intrinsics', _replace_intr, {'fmap': B, 'smap': B, 'cs': B}, group='utilities'),
     Entry('rename_variables', _rename, {'vars': ['local', 'loop']}, group='utilities'),
     Entry('rename_variables(host-used)', _rename, {'vars': ['arg', 'dim']},
-          gate=lambda wc: wc.marks['has']['isub'] or wc.marks['has']['ifun'], group='utilities'),
+          gate=lambda wc, o: wc.marks['has']['isub'] or wc.marks['has']['ifun'], group='utilities'),
     Entry('sanitise_imports', _each('sanitise_imports'), {'on': ['kern', 'all']}, group='utilities', c40=True),
     Entry('sanitise_imports(module)', lambda x, o: _T().sanitise_imports(x.mod), group='utilities', c40=True),
     Entry('replace_selected_kind', _each('replace_selected_kind'), pre=_has('local_kind'), group='utilities'),
@@ -599,7 +620,8 @@ REGISTRY = [
           group='array_indexing', c40=True),
     Entry('normalize_array_shape_and_access', _each('normalize_array_shape_and_access'), group='array_indexing'),
     Entry('flatten_arrays', _flatten, {'normalize': B, 'order': ['F', 'C'], 'start': [1, 0]}, group='array_indexing'),
-    Entry('LowerConstantArrayIndices', _lower_const, {'recurse': B, 'ext': B}, group='array_indexing'),
+    Entry('LowerConstantArrayIndices', _lower_const, {'recurse': B, 'ext': B}, pre=_has('lower_const'),
+          group='array_indexing'),
     Entry('demote_variables', _demote, {'v': ['zv', 'zv+w2']}, group='array_indexing'),
     Entry('promote_variables', _promote, {'pos': [0, -1], 'index': B, 'size': B},
           pre=lambda wc, o: o['index'] and o['size'], group='array_indexing'),
@@ -612,7 +634,7 @@ REGISTRY = [
     Entry('resolve_vector_dimension', _resolve_dim, {'derive': B}, group='array_indexing', c40=True),
     # ---- inline/*
     Entry('inline_constant_parameters', _each('inline_constant_parameters'), {'external_only': B},
-          gate=lambda wc: wc.rk == 'jprb', group='inline'),
+          gate=lambda wc, o: wc.rk == 'jprb' or (wc.marks.get('local_kind') and not o['external_only']), group='inline'),
     Entry('inline_elemental_functions', _each('inline_elemental_functions'), group='inline'),
     Entry('inline_functions', _inline_funcs, {'elem_only': B, 'functions': ['explicit', None]},
           pre=lambda wc, o: wc.marks['has']['hfun'] or wc.marks['has']['hele'], group='inline'),
@@ -623,14 +645,15 @@ REGISTRY = [
           pre=_has('inline_call'), group='inline'),
     Entry('InlineTransformation', _inline_trafo,
           {'constants': B, 'elementals': B, 'stmt_funcs': B, 'internals': B, 'marked': B, 'dead': B, 'seq': B},
-          gate=lambda wc: wc.rk == 'jprb', group='inline'),
+          gate=lambda wc, o: o['constants'] and wc.rk == 'jprb', group='inline'),
     # ---- remove_code.py
     Entry('do_remove_dead_code', _each('do_remove_dead_code'), {'on': ['kern', 'all'], 'use_simplify': B},
           group='remove_code', c40=True),
     Entry('do_remove_marked_regions', _each('do_remove_marked_regions'), {'mark_with_comment': B},
           group='remove_code'),
     Entry('do_remove_calls', _remove_calls, {'calls': B, 'remove_imports': B}, group='remove_code'),
-    Entry('do_remove_unused_vars', _remove_unused, {'arrays_only': B}, group='remove_code'),
+    Entry('do_remove_unused_vars', _remove_unused, {'arrays_only': B}, gate=lambda wc, o: not o['arrays_only'],
+          group='remove_code'),
     Entry('RemoveCodeTransformation', _remove_trafo,
           {'marked': B, 'comment': B, 'dead': B, 'simplify': B, 'calls': B, 'unused_vars': B}, group='remove_code'),
     # ---- constant_propagation.py
@@ -785,6 +808,8 @@ class SEntry:
     gate: object = None
     group: str = 'scheduler'
     project: dict = field(default_factory=dict)    # make_project keyword arguments
+    keep_originals: bool = False       # the build also contains the untransformed files (renaming transformations)
+    fflags: tuple = ()
     min_quick: int = 2
 
 
@@ -802,7 +827,7 @@ def _s_dependency(o, env):
     out = []
     if o['wrap']:
         out.append(T.ModuleWrapTransformation(module_suffix='_MOD'))
-    out.append(T.DependencyTransformation(suffix='_T', module_suffix='_MOD' if o['wrap'] or o['modsuffix'] else None,
+    out.append(T.DependencyTransformation(suffix=o['suffix'], module_suffix='_MOD' if o['wrap'] or o['modsuffix'] else None,
                                           include_path=env['include']))
     return out
 
@@ -887,22 +912,35 @@ def _s_combo(o, env):
     out.append(T.HoistTemporaryArraysAnalysis())
     out.append(T.HoistTemporaryArraysTransformationAllocatable())
     out.append(T.ModuleWrapTransformation(module_suffix='_MOD'))
-    out.append(T.DependencyTransformation(suffix='_T', module_suffix='_MOD', include_path=env['include']))
+    out.append(T.DependencyTransformation(suffix='_t', module_suffix='_MOD', include_path=env['include']))
     return out
 
 
+def _no_functions(wc):
+    # kernels of the hoist / pool-allocator transformations are subroutines (function results cannot be hoisted,
+    # pure functions cannot take the stack argument)
+    h = wc.marks['has']
+    return not (h['hfun'] or h['hele'] or h['ifun'])
+
+
 SCHED_REGISTRY = [
-    SEntry('sched:IdemTransformation', _s_idem),
+    SEntry('sched:IdemTransformation', _s_idem, project={'with_free': True}),
     SEntry('sched:DrHookTransformation', _s_drhook, {'suffix': [None, 'X'], 'remove': B, 'kernel_only': B},
            pre=lambda wc, o: o['suffix'] or o['remove'], project={'drhook': True}),
-    SEntry('sched:DependencyTransformation', _s_dependency, {'wrap': B, 'modsuffix': B}),
-    SEntry('sched:DuplicateKernel', _s_duplicate, {'modsuffix': B}),
+    SEntry('sched:DependencyTransformation', _s_dependency, {'wrap': B, 'modsuffix': B, 'suffix': ['_t', '_T']},
+           pre=lambda wc, o: not wc.marks.get('has_t1'), gate=lambda wc, o: o['suffix'] == '_T' and not o['wrap'],
+           keep_originals=True, project={'with_free': True}),
+    SEntry('sched:DuplicateKernel', _s_duplicate, {'modsuffix': B}, pre=lambda wc, o: not wc.marks.get('has_t1')),
     SEntry('sched:RemoveKernel', _s_remove_kernel, pre=lambda wc, o: wc.marks['has']['hsub']),
     SEntry('sched:DerivedTypeArgumentsTransformation', _s_derived, {'all': B}, pre=lambda wc, o: wc.marks.get('has_t1')),
     SEntry('sched:ArgumentArrayShape', _s_argshape, pre=_has('assumed_shape')),
     SEntry('sched:RemoveDuplicateArgs', _s_dupargs, {'recurse': B, 'rename_common': B}, pre=_has('dup_args')),
-    SEntry('sched:HoistVariables', _s_hoist, {'kind': ['all', 'arrays', 'arrays_n'], 'kw': B, 'remap': B}),
-    SEntry('sched:TemporariesPoolAllocator', _s_pool, {'check_bounds': B}, project={'block_loop': True}),
+    SEntry('sched:HoistVariables', _s_hoist, {'kind': ['all', 'arrays', 'arrays_n'], 'kw': B, 'remap': B},
+           pre=lambda wc, o: wc.rk == 'jprb' and _no_functions(wc) and (o['kind'] != 'all' or not (
+               wc.marks.get('stmt_func') or wc.marks.get('local_kind')))),
+    SEntry('sched:TemporariesPoolAllocator', _s_pool, {'check_bounds': B}, project={'block_loop': True},
+           pre=lambda wc, o: _no_functions(wc),
+           fflags=('-fcray-pointer',)),
     SEntry('sched:InlineTransformation', _s_inline, {'elementals': B, 'internals': B, 'marked': B}),
     SEntry('sched:ExtractTransformation', _s_extract, {'internals': B, 'outline': B},
            pre=lambda wc, o: o['internals'] or o['outline']),
@@ -910,7 +948,10 @@ SCHED_REGISTRY = [
            {'dead': B, 'unused_args': B, 'unused_vars': B, 'kernel_only': B}),
     SEntry('sched:SanitiseTransformation', _s_sanitise, {'seq': B}),
     SEntry('sched:TransformLoopsTransformation', _s_loops),
-    SEntry('sched:LowerConstantArrayIndices', _s_lowerconst, {'ext': B}),
+    SEntry('sched:LowerConstantArrayIndices', _s_lowerconst, {'ext': B},
+           pre=lambda wc, o: False),   # needs calls with constant subscripts only (crashes otherwise): in-process entry
     SEntry('sched:ParametriseTransformation', _s_parametrise, {'by_value': B}),
-    SEntry('sched:pipeline', _s_combo, {'internals': B, 'derived': B}),
+    SEntry('sched:pipeline', _s_combo, {'internals': B, 'derived': B},
+           pre=lambda wc, o: wc.rk == 'jprb' and not wc.marks.get('has_t1') and not o['derived'] and _no_functions(wc),
+           keep_originals=True, project={'with_free': True}),
 ]
